@@ -28,6 +28,11 @@ LIST_OPS = {
     "setitem0=c2": (lambda p, C: p.member_of.__setitem__(0, C[2]) if p.member_of else None, lambda m, C: ([C[2]] + m[1:]) if m else m),
     "extend(gen c1,c3)": (lambda p, C: p.member_of.extend(x for x in [C[1], C[3]]), lambda m, C: m + [C[1], C[3]]),
     "setitem0=twin": (lambda p, C: p.member_of.__setitem__(0, C[4]) if p.member_of else None, lambda m, C: ([C[4]] + m[1:]) if m else m),
+    "slice[1:2]=[c3,c2]": (lambda p, C: p.member_of.__setitem__(slice(1, 2), [C[3], C[2]]), lambda m, C: m[:1] + [C[3], C[2]] + m[2:]),
+    "slice[0:0]=[c1]": (lambda p, C: p.member_of.__setitem__(slice(0, 0), [C[1]]), lambda m, C: [C[1]] + m),
+    "assign-reversed-self": (lambda p, C: setattr(p, "member_of", reversed(p.member_of)), lambda m, C: list(reversed(m))),
+    "assign-gen-over-self": (lambda p, C: setattr(p, "member_of", (x for x in p.member_of)), lambda m, C: list(m)),
+    "assign-chain-self+c2": (lambda p, C: setattr(p, "member_of", itertools.chain(p.member_of, [C[2]])), lambda m, C: list(m) + [C[2]]),
 }
 SET_OPS = {
     "assign{}": (lambda c, P: setattr(c, "members", set()), lambda m, P: set()),
@@ -40,6 +45,8 @@ SET_OPS = {
     "update{p1,p2}": (lambda c, P: c.members.update({P[1], P[2]}), lambda m, P: m | {P[1], P[2]}),
     "update[p3,p3]": (lambda c, P: c.members.update([P[3], P[3]]), lambda m, P: m | {P[3]}),
     "update(gen p1,p2)": (lambda c, P: c.members.update(x for x in [P[1], P[2]]), lambda m, P: m | {P[1], P[2]}),
+    "assign-gen-over-self": (lambda c, P: setattr(c, "members", (x for x in c.members)), lambda m, P: set(m)),
+    "assign-filter-self": (lambda c, P: setattr(c, "members", filter(lambda x: True, c.members)), lambda m, P: set(m)),
 }
 
 
@@ -112,5 +119,19 @@ for kind, OPS in (("list", LIST_OPS), ("set", SET_OPS)):
         if got != want:
             rep.fail(f"{kind}::{category(seq[-1])}::relations", f"after {list(seq)}: graph relations differ from element-wise appending: missing {sorted(want - got)} extra {sorted(got - want)}",
                      {"ops": list(seq)})
+# ---- the first write of a field is the one the dataclass constructor performs
+C, P = fresh()
+st, q = guarded(lambda: Person(name="ctor", member_of=[C[1], C[2]]))
+rep.case(("list", "constructor"))
+if st == "exc":
+    rep.fail("list::constructor::raised", f"Person(member_of=[c1, c2]): {type(q).__name__}: {q}", {"ops": ["constructor"]})
+elif [x.name for x in q.member_of] != ["c1", "c2"] or not all(q in c.members for c in (C[1], C[2])):
+    rep.fail("list::constructor::inference", f"Person(member_of=[c1, c2]): field {[x.name for x in q.member_of]}, inverse fields {[[m.name for m in c.members] for c in (C[1], C[2])]}", {"ops": ["constructor"]})
+st, co = guarded(lambda: Company(name="ctor", members={P[1], P[2]}))
+rep.case(("set", "constructor"))
+if st == "exc":
+    rep.fail("set::constructor::raised", f"Company(members={{p1, p2}}): {type(co).__name__}: {co}", {"ops": ["constructor"]})
+elif {x.name for x in co.members} != {"p1", "p2"} or not all(co in p.member_of for p in (P[1], P[2])):
+    rep.fail("set::constructor::inference", f"Company(members={{p1, p2}}): field {sorted(x.name for x in co.members)}, inverse fields missing", {"ops": ["constructor"]})
 SymbolGraph().clear()
 rep.finish(exhaustive=True)
